@@ -16,6 +16,7 @@ import ast
 
 import sympy as sp
 
+from ..core import spelling
 from ..core.astutil import norm, ParentMap
 from ..core.cfg import CFG
 from ..core.loader import walk_no_nested
@@ -249,7 +250,7 @@ def _gain(prog, rep, f, s, m, und, tforms, kforms):
             for kA in cands:
                 for kB in cands:
                     for sname in _div_names(e):
-                        ref = ast.parse('(%s[%s, :] - %s[%s, %s] + %s[%s, %s]) - gamma * %s[%s] * (%s - %s[%s] + %s[%s]) / %s' % (
+                        ref = spelling.parse('(%s[%s, :] - %s[%s, %s] + %s[%s, %s]) - gamma * %s[%s] * (%s - %s[%s] + %s[%s]) / %s' % (
                             T, u, T, u, ma, M, u, u, kA, u, KB, KB, ma, kB, u, sname), mode='eval').body
                         if sp.simplify(got - _sym(ref)) == 0:
                             ok_shape = True
@@ -258,7 +259,7 @@ def _gain(prog, rep, f, s, m, und, tforms, kforms):
                 detail = 'gain half `%s = %s` is not (T[u,:] - T[u,ma] + M[u,u]) - gamma*k[u]*(K - K[ma] + k[u])/s' % (norm(hstmt.targets[0]), norm(e)[:120])
         if not ok_shape and T and M and not KB and not one_d_u:
             # objective-matrix form (community_louvain): the null model is folded into M, gain = T[u,:] - T[u,ma] + M[u,u]
-            ref = ast.parse('%s[%s, :] - %s[%s, %s] + %s[%s, %s]' % (T, u, T, u, ma, M, u, u), mode='eval').body
+            ref = spelling.parse('%s[%s, :] - %s[%s, %s] + %s[%s, %s]' % (T, u, T, u, ma, M, u, u), mode='eval').body
             tm = {fm[0] for fm in tforms.get(T, set())}
             if sp.simplify(_sym(e) - _sym(ref)) == 0 and tm == {M}:
                 ok_shape = True
